@@ -242,6 +242,13 @@ class Run:
             out.tb = traceback.format_exc()
         finally:
             sim.phase = 'idle'
+            if sched is not None:
+                # the owner's API call has returned; stragglers may go on
+                it.ret_seq['root'] = sched.seq
+                try:
+                    sched.join_all()
+                except BaseException:
+                    pass
             sim.sched = None
         out.sched = sched
         if sched is not None:
@@ -264,7 +271,8 @@ class Run:
             self.probe(k, v)
         return out
 
-    def model_build(self, step, pre, prev, hints=None, serve=True):
+    def model_build(self, step, pre, prev, hints=None, serve=True,
+                    shints=None):
         sb = self.sb
         versions = step.get('versions', {})
         name = step.get('name', self.cfg.get('build_name', 'B'))
@@ -272,6 +280,7 @@ class Run:
                         name, sb.clock.now, serve=serve, hints=hints)
         it = Interp(self.sc, sb, 'model', versions, model_build=mb)
         it.build_no = self.build_no
+        it.straggler_hints = shints or {}
         body = self.sc['roots'][step.get('root', 0)]
         out = Outcome()
         try:
@@ -345,8 +354,37 @@ class Run:
                 n = post.get(sb.cache)
                 self.records[bdigest(n[1], 20)] = rec
             return
+        # ---- stragglers (C17): calls made after the owner's API call
+        # returned must have been refused
+        shints = {}
+        for key, recs in sorted(real.it.stragglers.items()):
+            late = {}
+            for ent in recs:
+                o = ent['out']
+                rs = real.it.ret_seq.get(ent['owner'])
+                if rs is not None and ent['inv_seq'] > rs and \
+                        o[0] != '!RuntimeError':
+                    raise Violation(
+                        ['C17'], 'O-fence', 'late-call-accepted',
+                        {'straggler': key, 'stmt': ent['j'],
+                         'kind': ent['kind'], 'out': o,
+                         'invoked_at': ent['inv_seq'],
+                         'owner_returned_at': rs}, i)
+                if o[0] == '!RuntimeError':
+                    late[ent['j']] = True
+                    effect = None
+                    if ent.get('entered'):
+                        effect = 'function was called'
+                    elif ent['kind'] in ('sb', 'bf'):
+                        effect = self.refused_call_effect(step, ent, post)
+                    if effect:
+                        raise Violation(
+                            ['C17'], 'O-fence', 'refused-after-effect',
+                            {'straggler': key, 'stmt': ent['j'],
+                             'kind': ent['kind'], 'effect': effect}, i)
+            shints[key] = late
         # ---- reference model
-        model = self.model_build(step, pre, prev)
+        model = self.model_build(step, pre, prev, shints=shints)
         ctx['model'] = model
         self.last_model = model
         mb = model.mb
@@ -373,6 +411,52 @@ class Run:
             self.records[bdigest(n[1], 20)] = rec
         else:
             self.stats['rollbacks'] += 1
+
+    def refused_call_effect(self, step, ent, post):
+        """Did a builder call that raised RuntimeError('already finished')
+        leave something behind?  Looks at the tree and at the cache file the
+        build wrote (persisted state is observable state)."""
+        import gzip as _gz
+        import json as _json
+        sb = self.sb
+        body = None
+        for st in self.straggler_bodies():
+            if st is not None:
+                pass
+        s = ent.get('stmt')
+        if s is None:
+            return None
+        if s[0] == 'bf':
+            path = sb.p(s[1])
+            n = post.get(path)
+            if n is not None:
+                return 'output file exists'
+        n = post.get(sb.cache)
+        if n is None or n[0] != 'f':
+            return None
+        try:
+            doc = _json.loads(_gz.decompress(n[1]).decode())
+        except Exception:
+            return None
+
+        def walk(ops):
+            for op in ops:
+                yield op
+                for x in walk(op.get('suboperations', [])):
+                    yield x
+        for op in walk(doc.get('rootOperations', [])):
+            if s[0] == 'bf' and op.get('type') == 'build_file' and \
+                    op.get('filename') == sb.p(s[1]):
+                return 'recorded in the cache file'
+            if s[0] == 'sb' and op.get('type') == 'subbuild' and \
+                    op.get('funcName') == self.sc['funcs'][s[1]]['name'] \
+                    and op.get('args') == s[2]:
+                return 'recorded in the cache file'
+        del body
+        return None
+
+    def straggler_bodies(self):
+        return ()
 
     def differs_from_scratch(self, step, ctx):
         """Differential oracle in the words of C01: rerun the same build on
@@ -442,6 +526,25 @@ class Run:
                         {'inv': inv, 'model_executed': mit.order,
                          'real_executed': real.order,
                          'model_served': [str(k) for k in model.mb.served]})
+        if 'C17' in ctx['step'].get('tags', []):
+            # every operation that completed before the close is part of the
+            # record: what the model must re-execute, the implementation must
+            rset = set(real.order)
+            for inv in mit.order:
+                if inv not in rset:
+                    raise V(['C17'], 'O-inv', 'lost-observation',
+                            {'inv': inv, 'cause':
+                             str(model.mb.causes.get(inv)),
+                             'model_executed': mit.order,
+                             'real_executed': real.order})
+            for key in sorted(set(rit.stragglers) | set(mit.stragglers)):
+                ro = [e['out'] for e in sorted(rit.stragglers.get(key, []),
+                                               key=lambda e: e['j'])]
+                mo = [e['out'] for e in sorted(mit.stragglers.get(key, []),
+                                               key=lambda e: e['j'])]
+                if ro != mo:
+                    raise V(['C17'], 'O-fence', 'straggler-outcome',
+                            {'straggler': key, 'real': ro, 'model': mo})
         for inv in rit.done_order:
             robs, mobs = rit.trace[inv], mit.trace[inv]
             if rit.entries.get(inv) != mit.entries.get(inv):
